@@ -6,6 +6,8 @@
 
 package sumdb
 
+import "golang.org/x/mod/sumdb/tlog"
+
 // Hooks for the runtime-verification harness (build tag verif).
 // They are not part of the public API.
 
@@ -15,8 +17,8 @@ package sumdb
 var VerifYield func(point string)
 
 // VerifInstall, if non-nil, is called under latestMu immediately before
-// the in-memory latest tree head is replaced, with the old and new sizes.
-var VerifInstall func(c *Client, oldN, newN int64)
+// the in-memory latest tree head is replaced, with the old and new heads.
+var VerifInstall func(c *Client, old, new tlog.Tree)
 
 func verifYield(point string) {
 	if VerifYield != nil {
@@ -24,9 +26,9 @@ func verifYield(point string) {
 	}
 }
 
-func verifInstall(c *Client, oldN, newN int64) {
+func verifInstall(c *Client, old, new tlog.Tree) {
 	if VerifInstall != nil {
-		VerifInstall(c, oldN, newN)
+		VerifInstall(c, old, new)
 	}
 }
 
